@@ -8,6 +8,7 @@ import (
 	"fmt"
 	"math/rand"
 	"reflect"
+	"strings"
 	"sync"
 	"time"
 
@@ -341,6 +342,24 @@ func (p *pair) run(sc *Script, r *monitor.Run) (fs []finding, obs map[string]int
 		if e.Kind == "msg" && seen[e.Payload] != 1 {
 			add(fmt.Sprintf("delivery.count:%d", seen[e.Payload]), fmt.Sprintf("message %s forwarded over the federation reached B's subscriber %d times", e.Payload, seen[e.Payload]), detail)
 		}
+	}
+	// Leave nothing behind for the next script on this pair: the sessions of this script's clients end with
+	// their connections, which emits unsubscribe events. Wait until they have been emitted and applied.
+	for _, c := range clients {
+		c.Close()
+	}
+	bc.Close()
+	gone := func(ts []string) bool {
+		for _, t := range ts {
+			if strings.Contains(t, "/"+tag+"/") {
+				return false
+			}
+		}
+		return true
+	}
+	dl = time.Now().Add(settle)
+	for time.Now().Before(dl) && !(gone(a.F.VerifLocalTopics()) && gone(b.F.VerifLocalTopics()) && gone(b.F.VerifFedView(a.Name)) && gone(a.F.VerifFedView(b.Name))) {
+		time.Sleep(5 * time.Millisecond)
 	}
 	return fs, obs, nil
 }
